@@ -107,8 +107,11 @@ P.update({
             'Kernels of the ensemble solvers on the real code: the reduction (__update_bestSolver/__update_state) over 1-4 real member solvers with solver-chosen '
             'energies, solutions and counters, two rounds (step mode): ensemble best = minimum over members, solution = that member\'s, total evaluations = sum; '
             'LatticeSolver._InitialPoints (tuple and integer bins, symbolic box): exactly prod(bins) points, each the centre of its own cell, inside the ranges; '
-            'Buckshot/samplepts inside the ranges; gridpts = full Cartesian product; randomly_bin: product N, length ndim.', 'DESIGN.md#c09',
-            'NOT CLAIMED: whole lattice/buckshot/sparsity solves, member configuration transfer, fillpts (unbounded loops over symbolic state).'),
+            'Buckshot/samplepts inside the ranges; gridpts = full Cartesian product; randomly_bin: product N, length ndim. Whole tiny solves through the public API '
+            '(lattice 2 / 3 / 2x1 bins, buckshot 2 points, NM / Powell members, generation limit 1-2, symbolic box, uninterpreted cost / penalty / constraints): '
+            'members as requested, started at distinct cell centres, every real cost call inside the box and constrained, member energies truthful, limit obeyed, '
+            'best = minimum, total evaluations = sum over members = number of real cost calls.', 'DESIGN.md#c09',
+            'NOT CLAIMED: larger ensembles / longer member runs, DE members in whole solves, sparsity/fillpts, wrapper return tuples.'),
 })
 P.update({
     'C11': (True, 'model_checking',
